@@ -1,11 +1,13 @@
 #!/bin/bash
-# tools/seed_all.sh [tier]  - run every seeded change under seeded/ against the current checks (each in its own throw-away worktree, /repo is
+# tools/seed_all.sh [tier] [i/n]  - run every seeded change under seeded/ against the current checks (each in its own throw-away worktree, /repo is
 # not touched) and print one line per seed; the per-seed outcome goes to seeded/<name>/meta.json (runs.<tier>).  Sequential: the checks use
 # all cores.  Exit 0 when every seed was detected.
 cd "$(dirname "$0")/.."
 TIER=${1:-quick}
-miss=0
+SHARD=${2:-0/1}   # i/n: only every n-th seed starting at i (to run n sweeps side by side)
+miss=0; k=0
 for d in seeded/*/; do
+  k=$((k+1)); [ $(( (k-1) % ${SHARD#*/} )) -eq ${SHARD%/*} ] || continue
   s=$(basename $d)
   out=$(tools/seed_check.sh $s $TIER | tail -1)
   echo "$out"
